@@ -57,7 +57,7 @@ void morph_impl(SrcView const& src_view, DstView const& dst_view, Kernel const& 
 
                     // We ensure that we consider only those pixels which are overlapped
                     // on a non-zero kernel_element as
-                    if (kernel.at(flip_ker_row, flip_ker_col) == 0)
+                    if (kernel.at(flip_ker_col, flip_ker_row) == 0)
                     {
                         continue;
                     }
